@@ -245,6 +245,13 @@ type cllWalk struct {
 	// approvals, clock, crashes, faults, and new releases admitted only while the rollout is idle)
 	fwd bool
 	del bool
+	// earlyRelease: a release was pushed while a BatchRelease existed that had not recorded its revision yet (known finding
+	// supersedeBeforeInit); sticky until the next release taken while idle
+	earlyRelease bool
+	// sup: the history is inside the label set of the supersession theorems (forward labels + a superseding release pushed
+	// while the BatchRelease is Progressing on the rolled revision, or before any BatchRelease exists)
+	sup    bool
+	supNow bool
 }
 
 func cllNewWalk(c *Ctx, sc clScenario) *cllWalk {
@@ -263,6 +270,8 @@ func (w *cllWalk) do(label string) {
 	}
 	pre := s.cllJoint()
 	emitLabel := label
+	supBefore := w.sup
+	w.supNow = w.sup
 	switch {
 	case label == "ro" || strings.HasPrefix(label, "fault-ro:"):
 		failAt := -1
@@ -297,8 +306,22 @@ func (w *cllWalk) do(label string) {
 	case strings.HasPrefix(label, "release:"):
 		rev := label[len("release:"):]
 		w.del = false
-		w.fwd = pre.Ro != nil && pre.Ro.Phase == "Healthy" && pre.Ro.HasFinalizer && !pre.Ro.Deleting && pre.Wl != nil && !pre.Wl.InProgressAnno &&
+		if pre.Br != nil && pre.Br.St.UpdateRevision == "" {
+			w.earlyRelease = true
+		}
+		idleRel := pre.Ro != nil && pre.Ro.Phase == "Healthy" && pre.Ro.HasFinalizer && !pre.Ro.Deleting && pre.Wl != nil && !pre.Wl.InProgressAnno &&
 			pre.Br == nil && rev != pre.Wl.CurrentRevision
+		// mirror of RV.Oracle.ClosedLoop.supersedeOK (the driver re-checks it with `legalS`)
+		superRel := w.sup && pre.Ro != nil && pre.Ro.Phase == "Progressing" && pre.Ro.Reason == "inRolling" && pre.Ro.Sub != nil && pre.Wl != nil &&
+			pre.Wl.Replicas > 0 && rev != "" && rev != pre.Wl.CurrentRevision && rev != pre.Wl.UpdateRevision &&
+			pre.Ro.Sub.CanaryRev == pre.Wl.UpdateRevision && pre.Wl.UpdateRevision != pre.Wl.CurrentRevision &&
+			(pre.Br == nil || (!pre.Br.Deleting && pre.Br.St.Phase == "Progressing" && pre.Br.St.UpdateRevision == "wl-"+pre.Wl.UpdateRevision &&
+				pre.Br.St.ObservedReplicas == pre.Wl.Replicas))
+		w.supNow = w.sup && (idleRel || superRel) || idleRel
+		w.fwd = idleRel
+		if w.fwd {
+			w.earlyRelease = false
+		}
 		s.release(rev)
 	case label == "approve":
 		s.approve()
@@ -307,6 +330,7 @@ func (w *cllWalk) do(label string) {
 	case label == "crash":
 		s.restart()
 	case label == "delete":
+		w.supNow = false
 		// scope of the deletion theorems: a history legal for the forward theorems, then delete, then no new release
 		if w.fwd {
 			w.del = true
@@ -323,8 +347,9 @@ func (w *cllWalk) do(label string) {
 		if s.panicked {
 			impl = J{"panic": "?"}
 		}
-		w.c.EmitAs("closedloop", "cstep", J{"scenario": w.sc, "hist": hist, "pre": pre, "label": emitLabel, "fwd": w.fwd, "del": w.del}, impl)
+		w.c.EmitAs("closedloop", "cstep", J{"scenario": w.sc, "hist": hist, "pre": pre, "label": emitLabel, "fwd": w.fwd, "del": w.del, "earlyRelease": w.earlyRelease, "sup": supBefore}, impl)
 	}
+	w.sup = w.supNow
 	if strings.HasPrefix(label, "release:") && w.releasedAt < 0 {
 		w.releasedAt = w.ticks
 	}
@@ -437,10 +462,12 @@ func cllFair(c *Ctx, sc clScenario, events map[int]string, rounds int) *cllWalk 
 	return w
 }
 
-// cllSupersede: known finding supersedeRace, deterministically — the rollout of v2 is rolling with its current batch ready;
-// the user pushes v3; the BatchRelease controller and the CloneSet controller run a few times before the Rollout
-// controller reconciles; then fair rounds to the end
-func cllSupersede(c *Ctx, sc clScenario) *cllWalk {
+// cllSupersede: a newer revision pushed during a rollout, before the Rollout controller reconciles: the BatchRelease
+// controller and the CloneSet controller run a few times first.
+//   early = false: the current batch is Ready (BatchRelease Progressing, revision recorded) — the repaired defect
+//                  supersedeRace: the workload must stay held back;
+//   early = true:  the BatchRelease has just been created and has not been initialised yet — known finding supersedeBeforeInit.
+func cllSupersede(c *Ctx, sc clScenario, early bool) *cllWalk {
 	w := cllNewWalk(c, sc)
 	w.fair = true
 	for r := 0; r < 2; r++ {
@@ -449,14 +476,20 @@ func cllSupersede(c *Ctx, sc clScenario) *cllWalk {
 		}
 	}
 	w.do("release:v2")
-	for r := 0; r < 40; r++ {
-		cs := w.s.cllJoint()
-		if cs.Ro != nil && cs.Ro.Reason == "inRolling" && cs.Br != nil && cs.Br.St.BatchState == "Ready" && cs.Wl != nil && cs.Wl.Owner == "this" {
-			break
-		}
+	hit := false
+	for r := 0; r < 40 && !hit; r++ {
 		for _, l := range cllRound {
 			if l == "approve" && !w.manualPause() {
 				continue
+			}
+			cs := w.s.cllJoint()
+			if early && cs.Br != nil && cs.Br.St.UpdateRevision == "" {
+				hit = true
+				break
+			}
+			if !early && l == "ro" && cs.Ro != nil && cs.Ro.Reason == "inRolling" && cs.Br != nil && cs.Br.St.BatchState == "Ready" && cs.Wl != nil && cs.Wl.Owner == "this" {
+				hit = true
+				break
 			}
 			w.do(l)
 		}
@@ -560,7 +593,9 @@ func runClosedLoop(c *Ctx) {
 	budget := c.N
 	for i, sc := range scens {
 		if i < 2 {
-			w := cllSupersede(c, sc)
+			w := cllSupersede(c, sc, false)
+			w.trace()
+			w = cllSupersede(c, sc, true)
 			w.trace()
 		}
 	}
